@@ -9,3 +9,5 @@ for u in m.UNITS:
     print(json.dumps({k: v for k, v in r.items() if k not in ('dropped','translated')}, indent=1))
     for f in fs: print('FAILED', f['property'], f['description'], f['location'].get('line'))
     if fs and fs[0].get('trace'): print({k:v for k,v in list(fs[0]['trace'].items())[-40:]})
+    if os.environ.get('CANARIES'):
+        for c in pipeline.run_canaries(u, '/var/tmp/gwbv-dev'): print('CANARY', c)
